@@ -20,14 +20,24 @@ StepClauses(r) ==
         ELSE LET d == Diff(IdentityPairs(e), e, r.post)
              IN  IF d = {} THEN {"step.ids"} ELSE {"step:" \o c : c \in d}
 
+\* the first exported text must have the structure of the format (judged whether or not it could be re-read)
+SkelOf(toks) == MapSeq(LAMBDA t : [t |-> t.t, c |-> t.c, d |-> t.d], toks)
+TextStructure(r) == IF r.tokfail THEN {"text.untokenisable"}
+                    ELSE IF r.patched THEN {}      \* same first text as the unpatched record before it
+                    ELSE SkelClauses(Skeleton(r.opts, r.doc), SkelOf(r.toks1))
 XpClauses(r) ==
     LET o == r.opts
         exp0 == Expected(o, r.doc)
-    IN  IF r.status # "ok" THEN {"xp.parse"}
+    IN  TextStructure(r) \cup
+        IF r.status # "ok" THEN {"xp.parse"}
         ELSE LET exp == Aligned(exp0, r.doc2)
                  ps == IdPairs(exp, r.doc2)
              IN  OrderClauses(exp0, r.doc2) \cup IdClauses(o, ps) \cup Diff(ps, exp, r.doc2)
-                 \cup (IF r.tokfail THEN {"text.untokenisable"} ELSE TextClauses(ps, r.toks1, r.toks2))
+                 \cup (IF r.tokfail THEN {}
+                       \* the text of a record re-read from the repaired text (known triangle_tags defect) is not the writer's
+                       ELSE IF r.patched THEN {}
+                       ELSE IF OrderClauses(exp0, r.doc2) # {} THEN C(TextClauses(ps, r.toks1, r.toks2) = {}, "text:order")
+                       ELSE TextClauses(ps, r.toks1, r.toks2))
 
 \* IDs of one kind in a token stream
 TokIds(toks, kind) == {toks[j].n : j \in {j \in 1..Len(toks) : toks[j].ik = kind /\ toks[j].k # "groupid"
@@ -46,6 +56,13 @@ ParseClauses(r) ==
         \cup C(r.idsets.solid = SortInts(SolidIds(d)), "parse.ids.solid")
         \cup C(r.idsets.side = SortInts(SideIds(d)), "parse.ids.side")
         \cup C(r.idsets.ent = SortInts(EntIds(d)), "parse.ids.ent")
+        \* group / visgroup membership and group flags as the file states them (IDs preserved in these records)
+        \cup C(SeqToSet(r.memb.wsolid_group) = {<<s.id, s.group>> : s \in {s \in SeqToSet(d.world.solids) : s.group >= 0}}, "parse.wsolid.group")
+        \cup C(SeqToSet(r.memb.wsolid_vis) = UNION {{<<s.id, v>> : v \in SeqToSet(s.vis)} : s \in SeqToSet(d.world.solids)}, "parse.wsolid.vis")
+        \cup C(SeqToSet(r.memb.ent_group) = UNION {{<<e.id, g>> : g \in SeqToSet(e.groups)} : e \in SeqToSet(d.ents)}, "parse.ent.groups")
+        \cup C(SeqToSet(r.memb.ent_vis) = UNION {{<<e.id, g>> : g \in SeqToSet(e.vis)} : e \in SeqToSet(d.ents)}, "parse.ent.vis")
+        \cup C(SeqToSet(r.memb.group_auto) = {<<g.id, IF g.auto THEN 1 ELSE 0>> : g \in SeqToSet(d.groups)}, "parse.group.auto")
+        \cup C(SeqToSet(r.memb.group_shown) = {<<g.id, IF g.shown THEN 1 ELSE 0>> : g \in SeqToSet(d.groups)}, "parse.group.shown")
 
 Clauses(r) == CASE r.k = "step" -> StepClauses(r)
                 [] r.k = "xp" -> XpClauses(r)
